@@ -321,7 +321,7 @@ theorem output_determines_tree {tab nl : Char} (hne : tab ≠ nl) (ht : IsSep ta
 /-- … in particular for the tab and newline the code uses; and the output is equal exactly when `==` holds -/
 theorem output_eq_iff_equal (a b : PT) : output '\t' '\n' a = output '\t' '\n' b ↔ eqT a b = true := by
   rw [eq_iff]
-  exact ⟨output_determines_tree (by decide) isSep_tab isSep_newline a b, fun h => by rw [output_eq, output_eq, h]⟩
+  exact ⟨output_determines_tree (by simp) isSep_tab isSep_newline a b, fun h => by rw [output_eq, output_eq, h]⟩
 
 /-! ## `object(T&&, child_list&&)` and `map` with the identity -/
 
